@@ -2,7 +2,7 @@ use std::convert::TryFrom;
 use std::hash::{Hasher, Hash};
 use std::collections::{BTreeSet};
 use std::iter::FromIterator;
-use std::ops::Add;
+use std::ops::{Add, Sub};
 
 use regex::Regex;
 
@@ -84,12 +84,16 @@ impl<'a, T: ColumnProvider> ExpressionExecutionEngine<'a, T> {
                 let left_value = self.evaluate(left)?;
                 let right_value = self.evaluate(right)?;
 
-                match (&left_value, &right_value) {
-                    (Value::Timestamp(left), Value::Interval(right)) => {
+                // timestamp + interval, interval + timestamp and timestamp - interval are the only mixed forms with a value
+                match (&left_value, &right_value, operator) {
+                    (Value::Timestamp(left), Value::Interval(right), ArithmeticOperator::Add) => {
                         return Ok(Value::Timestamp(left.add(right.clone())));
                     }
-                    (Value::Interval(left), Value::Timestamp(right)) => {
+                    (Value::Interval(left), Value::Timestamp(right), ArithmeticOperator::Add) => {
                         return Ok(Value::Timestamp(right.add(left.clone())));
+                    }
+                    (Value::Timestamp(left), Value::Interval(right), ArithmeticOperator::Subtract) => {
+                        return Ok(Value::Timestamp(left.sub(right.clone())));
                     }
                     _ => {}
                 }
